@@ -77,6 +77,44 @@ claim("C20", "proof",
       "Coq kernel; strconv is the reference for Go semantics; two compiler implementation restrictions (raw NUL, raw U+FEFF) excluded.",
       "Rocq proof (symbolic over digits, lia) + exhaustive/finite correspondence of extracted model, Go decoder, generated decoder and strconv", "6 C20")
 
+claim("C05", "proof",
+      "Coq theorems (Properties/C05.v) over a model of ItemSet.Action/ResolveConflict: for every candidate list in every order the winner is "
+      "shift if present, else the least production; single candidates unchanged; conflict recorded iff two distinct actions compete; result "
+      "independent of item order; refusal (panic) iff Accept competes. On every run each compiled action-table cell of each conflicting "
+      "grammar is re-derived with the extracted row_action from gocc's dumped item sets, dumped conflict sets are compared, and the -a "
+      "parser is compared with the Parse model (verdict + full reduction sequence).",
+      LR_NOTE, "Rocq proof of the resolution fold + per-cell translation validation with the extracted verified function + differential correspondence", "6 C05")
+claim("C06", "proof",
+      "Coq theorem C06_exact (Properties/C06.v): for every table passing lr_valid and the canonicity/productivity checks x_checks, a syntax "
+      "error carries the first token that makes the consumed prefix non-viable, the prefix is viable, the expected list is exactly the set of "
+      "viable continuations in terminal order, and no shift/reduce/action ran with that token as look-ahead; plus termination on every input. "
+      "Both checks are evaluated by the Coq kernel on gocc's own tables and item sets (gocc's item order) per grammar; compiled parser vs model "
+      "on non-sentences; Earley prefix-viability oracle on the implementation's error token and expected list.",
+      LR_NOTE, "Rocq proof (item validity along the stack, canonical LR(1)) + kernel-evaluated translation validation + Earley oracle", "6 C06")
+claim("C10", "proof",
+      "Coq theorems (Properties/C10.v) over a model of Symbols/TokenMap numbering: the terminal list is duplicate-free, numbers are "
+      "positions, name<->number lookups are mutually inverse, unknown names map to 0, INVALID=0/EOF=1 (grammars naming a production INVALID "
+      "are now rejected: fix). Tied to the code by evaluating the extracted model on each grammar's productions and comparing with gocc's "
+      "TokenMap, by compiling the generated token package and evaluating Id/Type for every number and for unknown names, and by scanning "
+      "every terminal's lexeme with the generated lexer; three configurations and hostile spellings.",
+      "Coq kernel; model tied by differential testing; names compared as UTF-8 strings.",
+      "Rocq proof (list-based numbering) + extracted-model correspondence + evaluation of the generated packages", "6 C10")
+claim("C11", "proof",
+      "Coq theorems (Properties/C11.v): with every map iteration modelled as an arbitrary permutation, token ids, token numbering, FIRST "
+      "sets, look-ahead lists, resolved actions and conflict count do not depend on iteration order. A go/types inventory of the generator "
+      "(every range over a map, go statement, select, channel operation) is re-derived on every run and must equal the list of sites the "
+      "theorems cover or that only reach diagnostics (there is no concurrency at all). The binary is run repeatedly with GOMAXPROCS 1/16 and "
+      "outputs are byte-compared.",
+      "Coq kernel; the inventory tool (golang.org/x/tools/go/packages) is trusted to list map ranges; runtime randomisation is sampled.",
+      "Rocq proof of permutation independence + source inventory obligation + repeated-run exploration", "6 C11")
+claim("C12", "proof",
+      "Coq theorems (Properties/C12.v): the -zip encoding of every action row/table decodes back to the same row/table (any triple order). "
+      "On every run all 16 subsets of {-zip,-debug_lexer,-debug_parser,-v} are generated, compiled and run on the same sources (decoded "
+      "tables read back from the compiled package, results, errors, positions, action logs identical; debug output ignored) and 5 -no_lexer "
+      "subsets are compared file by file; debug variants may differ from plain output only by printing statements and imports.",
+      "Coq kernel; gob+gzip trusted as lossless transport; debug blocks judged syntactically.",
+      "Rocq proof (zip round trip) + file-level translation validation + behavioural comparison across all flag subsets", "6 C12")
+
 ALL = ["C%02d" % i for i in range(1, 21)]
 NOT_YET = "framework under construction: check for this property not built yet (planned, see DESIGN.md section 6)"
 
